@@ -17,7 +17,7 @@ func init() {
 			"R3 who-may-write: every store to Parser.errors is `append(<load of the same field>, …)`; no truncation, no restore from a copy. " +
 			"R4 speculative parsing does not record: between a Lexer.Clone() and the store that restores the clone into Parser.Lexer no callee can reach a store to Parser.errors. " +
 			"C03/R2 (recovery discipline) is shared. Decides: the control-flow contract between the error list, Bad nodes and the nil error. Does not decide: numeric range of error positions.",
-		Rules: []ruleFn{ruleC09R1, ruleC09R2, ruleC09R3, ruleC09R4, ruleC03R2, ruleC03R1, ruleC09R5},
+		Rules: []ruleFn{ruleC09R1, ruleC09R2, ruleC09R3, ruleC09R4, ruleC03R2, ruleC03R1, ruleC09R5, ruleC09R6},
 	})
 }
 
@@ -493,4 +493,68 @@ func instrReach(from ssa.Instruction, forward bool, stop func(ssa.Instruction) b
 		step(b, idx-1)
 	}
 	return out
+}
+
+// ruleC09R6: an error that is returned is looked at. The lexer has two ways of reporting an error: nextToken raises
+// (the parser's recovery turns the raise into an entry of Parser.errors), the exported NextToken returns it. A call of
+// an error-returning function of the module whose result is dropped loses the error: the parse goes on with a
+// half-built token and reports something else, somewhere else.
+func ruleC09R6(w *World, r *Report) {
+	const rule = "C09/R6"
+	r.rule(rule, "no call in the core packages drops the error result of a function of the module: the result is bound and used (compared, returned, stored)", 5)
+	errT := types.Universe.Lookup("error").Type()
+	n := 0
+	for _, fn := range w.ModFns {
+		if !corePkg(fnPkgPath(fn)) || fn.Blocks == nil {
+			continue
+		}
+		for _, b := range fn.Blocks {
+			for _, in := range b.Instrs {
+				c, ok := in.(*ssa.Call)
+				if !ok {
+					continue
+				}
+				var calleePkg string
+				name := ""
+				if sc := c.Call.StaticCallee(); sc != nil {
+					calleePkg, name = fnPkgPath(sc), funcName(sc)
+				} else if c.Call.IsInvoke() && c.Call.Method.Pkg() != nil {
+					calleePkg, name = c.Call.Method.Pkg().Path(), c.Call.Method.Name()
+				}
+				if !corePkg(calleePkg) {
+					continue
+				}
+				res := c.Call.Signature().Results()
+				idx := -1
+				for i := 0; i < res.Len(); i++ {
+					if types.Identical(res.At(i).Type(), errT) {
+						idx = i
+					}
+				}
+				if idx < 0 {
+					continue
+				}
+				n++
+				construct := fmt.Sprintf("error result of %s in %s", name, funcName(fn))
+				used := false
+				if res.Len() == 1 {
+					used = len(referrers(c)) > 0
+				} else {
+					for _, u := range referrers(c) {
+						if ex, ok := u.(*ssa.Extract); ok && ex.Index == idx && len(referrers(ex)) > 0 {
+							used = true
+						}
+					}
+				}
+				if used {
+					r.ok(rule, construct, w.pos(c.Pos()), "bound and used")
+				} else {
+					r.bad(rule, construct, w.pos(c.Pos()), "the error is dropped: a lexical error in the token fetched here is never reported, and the token is left half-built (its End is not set)")
+				}
+			}
+		}
+	}
+	if n < 5 {
+		r.errorf("only %d calls of error-returning module functions found", n)
+	}
 }
